@@ -3,3 +3,6 @@
 import McpModel.Base.Proto
 import McpModel.EventStore.Props
 import McpModel.Conn.Props
+import McpModel.EventStore.Driver
+import McpModel.Bearer.Props
+import McpModel.KeepAlive.Props
